@@ -100,6 +100,25 @@ def fingerprint():
     fp["decimal.context"] = repr((c.prec, c.rounding, c.Emin, c.Emax, c.capitals, c.clamp,
                                   sorted((s.__name__, bool(f)) for s, f in c.traps.items())))
     fp["sys.path"] = repr(sys.path)
+    # further process-global state a library has no business changing (added in session 3 after seed
+    # C19-cli-restores-default-sigpipe-in-main): signal dispositions, interpreter hooks and limits, working directory,
+    # locale, environment, the ROOT logger's configuration, the garbage collector's settings
+    try:
+        import gc
+        import locale
+        import logging
+        import signal
+        import threading
+        fp["signal.dispositions"] = repr(sorted((int(n), repr(signal.getsignal(n))) for n in signal.valid_signals()))
+        fp["sys.hooks"] = repr((sys.excepthook, sys.displayhook, getattr(sys, "unraisablehook", None), getattr(threading, "excepthook", None)))
+        fp["sys.recursionlimit"] = repr(sys.getrecursionlimit())
+        fp["os.cwd+locale"] = repr((os.getcwd(), locale.setlocale(locale.LC_ALL, None)))
+        fp["os.environ"] = repr(sorted(os.environ.items()))
+        root = logging.getLogger()
+        fp["logging.root"] = repr((root.level, [type(h).__name__ for h in root.handlers], logging.root.manager.disable, logging.raiseExceptions))
+        fp["gc.settings"] = repr((gc.isenabled(), gc.get_threshold()))
+    except Exception:
+        pass
     fp["warnings.filters"] = repr(warnings.filters)
     fp["sys.modules.cvss"] = repr(sorted(m for m in sys.modules if m == "cvss" or m.startswith("cvss.")))
     return fp
@@ -357,8 +376,22 @@ class YieldInjector(object):
             time.sleep(self.long_sleep if self.long_sleep and self.yields % 7 == 0 else 0)
 
 
+SHARED = {}  # (version, string) -> ONE object built before the threads start and observed by all of them
+
+
+def _observe_shared(ver, s):
+    o = SHARED[(ver, s)]
+    try:
+        return probe19._observe_object(lib(), ver, s, o)
+    except Exception as e:  # an accessor that raises is an observation, not a harness failure
+        return {"accessor_error": type(e).__name__, "message": str(e)[:200]}
+
+
 def observe_item(k):
-    """k: (version, vector string) or ('T', text) or ('R', version, Red Hat string)."""
+    """k: (version, vector string) or ('T', text) or ('R', version, Red Hat string) or ('O', version, string): the
+    accessors of the ONE object SHARED[...] (an immutable value may be handed to several threads)."""
+    if k[0] == "O":
+        return json.loads(json.dumps(_observe_shared(k[1], k[2])))
     if k[0] == "T":
         return probe19.observe({"vectors": [], "rh": [], "texts": [k[1]], "dialogues": []})["texts"][0]
     if k[0] == "R":
@@ -392,31 +425,51 @@ def thread_workload(P, seed, n_threads, per_thread, prob):
             muts = list(V.field_mutants(ver, p, T.parse(ver, s)[1], rng))
             pool.append((ver, rng.choice(muts)[1]))
     pool += other_entry_items(rng, pool)
+    # a few objects built once and handed to all threads (three entries each, so that their accessors overlap often)
+    SHARED.clear()
+    for ver, sv in [k for k in pool if len(k) == 2 and k[0] in T.VERSIONS][::2]:
+        if sum(1 for k in SHARED if k[0] == ver) >= 2:
+            continue
+        ok_, o_ = obs.call(lib().CLS[ver], sv)
+        if ok_:
+            SHARED[(ver, sv)] = o_
+            pool += [("O", ver, sv)] * 3
     base = {k: observe_item(k) for k in pool}
+    P.stratum("threads:objects-shared-between-threads", len(SHARED))
     results = []
     errors = []
     old_si = sys.getswitchinterval()
     inj = YieldInjector(prob, seed)
     have_mon = hasattr(sys, "monitoring")
 
+    rounds = [(pool, per_thread)]
+    only_shared = [k for k in pool if k[0] == "O"]
+    if only_shared:
+        # second round: every thread reads nothing but the few shared objects (their accessors overlap all the time)
+        rounds.append((sorted(set(only_shared)), max(6, per_thread // 2)))
+
     def worker(tid):
         r = random.Random("C19-thr-%s-%s" % (seed, tid))
         try:
-            for _ in range(per_thread):
-                k = pool[r.randrange(len(pool))]
-                results.append((tid, k, observe_item(k)))
+            for pl, n in current:
+                for _ in range(n):
+                    k = pl[r.randrange(len(pl))]
+                    results.append((tid, k, observe_item(k)))
         except BaseException as e:  # noqa
             errors.append(repr(e))
 
     sys.setswitchinterval(1e-5)
     if have_mon:
         inj.start()
+    current = []
     try:
-        ths = [threading.Thread(target=worker, args=(i,)) for i in range(n_threads)]
-        for t in ths:
-            t.start()
-        for t in ths:
-            t.join()
+        for rnd in rounds:
+            current[:] = [rnd]
+            ths = [threading.Thread(target=worker, args=(i,)) for i in range(n_threads)]
+            for t in ths:
+                t.start()
+            for t in ths:
+                t.join()
     finally:
         if have_mon:
             inj.stop()
